@@ -1,7 +1,9 @@
 """MANIFEST.setup_cmd: verify the tool chain and parse every specification module."""
 import pathlib
+import shutil
 import subprocess
 import sys
+import tempfile
 
 from harness.core import SPEC, TLA_CP, use_repo
 
@@ -15,9 +17,10 @@ def main():
         ok = False
     mods = sorted(p for p in SPEC.glob("*.tla"))
     procs = []
+    jtmp = tempfile.mkdtemp(prefix="eko-verif-sany-")   # SANY unpacks library modules into java.io.tmpdir
     for m in mods:
         procs.append((m, subprocess.Popen(
-            ["java", "-cp", TLA_CP, "tla2sany.SANY", m.name], cwd=str(SPEC),
+            ["java", f"-Djava.io.tmpdir={jtmp}", "-cp", TLA_CP, "tla2sany.SANY", m.name], cwd=str(SPEC),
             stdout=subprocess.PIPE, stderr=subprocess.STDOUT, text=True)))
         if len(procs) >= 16:
             for mm, p in procs:
@@ -31,6 +34,7 @@ def main():
         if p.returncode != 0 or "*** Errors" in out or "Fatal errors" in out:
             print(f"SANY failed on {mm.name}:\n{out[-1500:]}")
             ok = False
+    shutil.rmtree(jtmp, ignore_errors=True)
     print(f"setup: {len(mods)} modules parsed, ok={ok}")
     for d in ("evidence", "replays", "build"):
         (pathlib.Path(__file__).resolve().parent.parent / d).mkdir(exist_ok=True)
